@@ -83,8 +83,12 @@ type c07Case struct {
 	ExtTS *int64 `json:"extension_timestamp,omitempty"`
 	// Extra: unknown entries added to the token, which every profile ignores:
 	// 1 = an integer label, 2 = a text label (CBOR) / another member (JSON),
-	// 4 = a negative label; bits may be combined
+	// 4 = a negative label, 8 = (CBOR) a label that is neither int nor text;
+	// bits may be combined
 	Extra int `json:"extra_unknown_entries,omitempty"`
+	// Dup2 (JSON only): a SECOND "eat-profile" member, naming another
+	// registered profile, written after the first one
+	Dup2 string `json:"second_eat_profile_member,omitempty"`
 }
 
 // jsonEscapedString renders s as a JSON string using non-canonical but
@@ -204,6 +208,11 @@ func (c *c07Case) cborToken(withS2 bool) []byte {
 	if c.Extra&4 != 0 {
 		ps = append(ps, icbor.P(icbor.I(-70001), icbor.Arr(icbor.U(1))))
 	}
+	if c.Extra&8 != 0 {
+		// a label that is neither int nor text: not a claims map
+		odd := []*icbor.Node{icbor.Bool(false), icbor.Null(), icbor.F64(1.5), icbor.Simple(32), icbor.Tag(1, icbor.U(0)), icbor.Undef(), icbor.Bool(true)}
+		ps = append(ps, icbor.P(odd[len(ps)%len(odd)], icbor.U(1)))
+	}
 	if n := slotCBOR(c.S2); n != nil && withS2 {
 		// in the middle: dispatch must not depend on position
 		mid := len(ps) / 2
@@ -318,6 +327,10 @@ func (c *c07Case) jsonDoc(withS2 bool) []byte {
 		o.keys = append(o.keys, "x-profile")
 		o.vals = append(o.vals, v)
 	}
+	if c.Dup2 != "" && withS2 {
+		o.keys = append(o.keys, "eat-profile")
+		o.vals = append(o.vals, jStr(c.Dup2))
+	}
 	if c.ExtTS != nil {
 		o.keys = append(o.keys, "timestamp")
 		o.vals = append(o.vals, jNum(fmt.Sprint(*c.ExtTS)))
@@ -391,6 +404,9 @@ func viewUnder(sel *regProf, body *MClaims, profVal *string) *MClaims {
 
 func (c *c07Case) expect() c07Expect {
 	regs := c.registered()
+	if c.Format != "json" && c.Extra&8 != 0 {
+		return c07Expect{Err: true}
+	}
 	if c.Format != "json" {
 		var sel *regProf
 		switch c.S2.Kind {
@@ -589,6 +605,24 @@ func c07Check(c *c07Case) string {
 	if errv == nil && err != nil {
 		return fmt.Sprintf("decode-and-validate accepts what the plain decoder rejects (%v)\n  token: %s", err, show())
 	}
+	if c.Dup2 != "" {
+		// the profile member occurs twice (two registered names): JSON leaves
+		// open which one counts, or whether the document is refused; but IF it
+		// decodes, dispatcher and claims decoder must have read the SAME one:
+		// the result's type is the type registered for the profile it reports
+		if err != nil {
+			return ""
+		}
+		p, perr := r.GetProfile()
+		if perr != nil {
+			return fmt.Sprintf("a document whose eat-profile member occurs twice (%q, %q) decodes as %T, which then does not report a profile (%v): the dispatcher and the claims decoder read different occurrences\n  token: %s", c.S2.Name, c.Dup2, r, perr, show())
+		}
+		sel := findProf(c.registered(), p)
+		if sel == nil || fmt.Sprintf("%T", r) != sel.Type {
+			return fmt.Sprintf("a document whose eat-profile member occurs twice decodes as %T but reports profile %q", r, p)
+		}
+		return ""
+	}
 	switch {
 	case ex.Err:
 		if err == nil || errv == nil {
@@ -726,7 +760,7 @@ func drawSlot(t *rapid.T, label string, kinds []string) slotVal {
 
 func TestC07_Dispatch(t *testing.T) {
 	st := NewStats("C07", "TestC07_Dispatch", "rapid: a body of profile-1 or profile-2 claims (valid, or with 1..2 rule deviations) in CBOR (independent encoder; optionally with the other profile's complete body mixed in), the same CBOR as payload of a signed COSE envelope decoded by an Evidence that is fresh or already holds claims of either profile (decoded, attached, or after a failed decode), or JSON (harness's own writer; profile strings and member names optionally written with equivalent escape sequences); tokens for the extension profiles may carry the extension's own claim with a value its Validate() rejects; optionally after registrations that must be refused (existing names, claims types without usable profile field), combined with every class of profile claim under each profile's key/member (-75000 / 265, psa-profile / eat-profile / x-profile): absent, null, undefined, empty, non-text, one of 24 names (the two built-ins, three extension names, unknown URIs, and look-alikes that case / URL / whitespace normalisation would map onto a registered name), under one key or both; with every subset of three extra profiles registered through the checkpoint hook (an extension of profile 2 sharing eat-profile, an extension of profile 1 sharing psa-profile, one with its own JSON member). Oracle: reference dispatcher (CBOR: key 265 absent -> profile 1, registered name -> that profile, other text -> error; JSON: exactly one registered name matched -> it, a present non-null profile member matching nothing or two profiles matched -> error, none present -> profile 1); result type = selected profile's; decode-and-validate succeeds iff the token is valid under THAT profile's rules (independent model, cross-read member names); accepted token reports the declared name and the wire values; NewClaims(p) reports p for every registered p and fails otherwise. Key 265 holding a non-text item: error. Key 265 holding ''/null/undefined or the profile-1 name: error or identical to the token without it. Non-trivial = profile claim not simply present-and-matching with nothing else registered; distinct = format + slots + registered set + validity class")
-	st.Require = []string{"cbor", "json", "cose", "cose-used-evidence", "after-refused-registration", "json-escapes", "extra-unknown-entries", "extension-own-rule-violated", "expect=error", "expect=soft", "expect=selected-valid", "expect=selected-invalid", "sel=default", "sel=extension", "reg=0", "reg>0", "both-keys", "cross-profile"}
+	st.Require = []string{"cbor", "json", "cose", "cose-used-evidence", "after-refused-registration", "json-escapes", "extra-unknown-entries", "duplicate-profile-member", "extension-own-rule-violated", "expect=error", "expect=soft", "expect=selected-valid", "expect=selected-invalid", "sel=default", "sel=extension", "reg=0", "reg>0", "both-keys", "cross-profile"}
 	defer st.Flush(t)
 	registerMu.Lock()
 	defer registerMu.Unlock()
@@ -741,6 +775,9 @@ func TestC07_Dispatch(t *testing.T) {
 		}
 		if rapid.IntRange(0, 2).Draw(t, "extra") == 0 {
 			c.Extra = rapid.IntRange(1, 7).Draw(t, "extra.bits")
+			if c.Format != "json" && rapid.IntRange(0, 3).Draw(t, "extra.oddlabel") == 0 {
+				c.Extra |= 8
+			}
 		}
 		if rapid.IntRange(0, 2).Draw(t, "ext.ts") == 0 {
 			ts := rapid.SampledFrom([]int64{0, 1, 1700000000, -1, -1700000000, 1 << 40, extTSNotInProfile, extTSOptionalish}).Draw(t, "ext.ts.val")
@@ -841,6 +878,22 @@ func TestC07_Dispatch(t *testing.T) {
 				}
 			}
 		}
+		if c.Format == "json" && natural && q == P2 && c.S2.Kind == "name" && rapid.IntRange(0, 3).Draw(t, "dup2") == 0 {
+			// both names must be registered profiles carried by eat-profile
+			pool := []string{P2Name}
+			for _, i := range c.Reg {
+				if extraProfs[i].Tag == "eat-profile" && extraProfs[i].Base == P2 {
+					pool = append(pool, extraProfs[i].Name)
+				}
+			}
+			if findProfIn(pool, c.S2.Name) && len(pool) > 1 {
+				d := rapid.SampledFrom(pool).Draw(t, "dup2.name")
+				if d != c.S2.Name {
+					c.Dup2 = d
+					c.SX = slotVal{Kind: "absent"}
+				}
+			}
+		}
 		var msg string
 		withRegistered(c.Reg, func() {
 			if msg = c07NewClaims(c.registered()); msg == "" {
@@ -859,6 +912,9 @@ func TestC07_Dispatch(t *testing.T) {
 		}
 		if c.Extra != 0 {
 			defer st.Class("extra-unknown-entries")
+		}
+		if c.Dup2 != "" {
+			defer st.Class("duplicate-profile-member")
 		}
 		if extRuleBroken(c.ExtTS) && !ex.Err && !ex.Soft && ex.Sel != nil && ex.Sel.Impl != nil {
 			defer st.Class("extension-own-rule-violated")
@@ -914,4 +970,13 @@ func TestC07_Dispatch(t *testing.T) {
 			t.Fatalf("C07 violated: %s", msg)
 		}
 	})
+}
+
+func findProfIn(pool []string, name string) bool {
+	for _, n := range pool {
+		if n == name {
+			return true
+		}
+	}
+	return false
 }
